@@ -34,8 +34,8 @@ def lattices(tier, seed):
         deep,
         dict(D=2, Ns=P2([1, 2, 3, 4, 5], 2), Ms=P2([1, 2, 3, 4], 2), Modes={"TORUS", "SAME", "VALID", "EXPL"},
              Pads={((1, 1), (1, 1)), ((2, 2), (0, 0)), ((0, 1), (2, 0)), ((3, 0), (1, 2))},
-             StrideSet=P2([1, 2, 3], 2), RdilSet=P2([1, 2, 3], 2), LdilSet=P2([1, 2, 3], 2),
-             GroupMode="none", SampleMod=211, Seed=seed % 211),
+             StrideSet=P2([1, 2, 3], 2), RdilSet={(1, 1), (2, 1), (1, 2), (2, 2), (3, 3), (3, 1)}, LdilSet={(1, 1), (2, 2), (1, 2), (3, 1)},
+             GroupMode="none", SampleMod=401, Seed=seed % 401),
         dict(D=3, Ns=P2([1, 2, 3], 3), Ms={(1, 1, 1), (3, 3, 3), (2, 2, 2), (1, 3, 2), (3, 1, 1), (2, 3, 3)},
              Modes={"TORUS", "SAME", "VALID", "EXPL"}, Pads={((1, 1), (1, 1), (1, 1)), ((0, 1), (2, 0), (1, 1))},
              StrideSet={(1, 1, 1), (2, 1, 2), (2, 2, 2)}, RdilSet={(1, 1, 1), (2, 1, 1), (2, 2, 2)},
